@@ -122,6 +122,23 @@ func childTTY(args []string) int {
 	if strings.Contains(mode, "alt") {
 		opts = append(opts, tea.WithAltScreen(), tea.WithMouseCellMotion(), tea.WithReportFocus())
 	}
+	if strings.Contains(mode, "stalesize") {
+		// hold the FIRST size query (the start-up one) after it has read the size, until the
+		// gate file exists; later queries pass
+		var calls int32
+		tea.VerifPauseHook = func(where string) {
+			if strings.HasPrefix(where, "checkResize") && atomic.AddInt32(&calls, 1) == 1 {
+				m.logf("paused")
+				for {
+					if _, err := os.Stat(gate); err == nil {
+						break
+					}
+					time.Sleep(2 * time.Millisecond)
+				}
+				m.logf("resumed")
+			}
+		}
+	}
 	p := tea.NewProgram(m, opts...)
 	m.logf("starting")
 	_, err = p.Run()
@@ -331,6 +348,46 @@ func ptyExit(out *scenOut, input, cause string) {
 	}
 }
 
+// ptyStaleSize: the start-up size query has read the size when the terminal is resized; the
+// resize listener reports the new size; then the start-up report is delivered. When everything
+// is quiet again the size Update saw LAST must be the terminal's true size.
+func ptyStaleSize(out *scenOut) {
+	desc := "start-up size query held after reading 80x24; resize to 100x30 reported by the listener; then the start-up report is delivered"
+	r, err := startPtyChild("default-stalesize", 80, 24)
+	if err != nil {
+		return
+	}
+	defer r.cleanup()
+	if !r.waitLog("paused", 5*time.Second) {
+		out.record("stale-size/not-reached", desc)
+		return
+	}
+	time.Sleep(40 * time.Millisecond) // the resize listener has registered for SIGWINCH
+	setWinsize(r.pair.master, 100, 30)
+	okNew := waitFor(3*time.Second, func() bool { s := r.sizes(); return len(s) > 0 && s[len(s)-1] == "100 30" })
+	os.WriteFile(r.gate, []byte("x"), 0o644)
+	r.waitLog("resumed", 2*time.Second)
+	time.Sleep(60 * time.Millisecond) // quiet: nothing pending, nothing in flight
+	got := r.sizes()
+	out.record("stale-size", desc+" -> "+strings.Join(got, ", "))
+	r.pair.master.Write([]byte("q"))
+	select {
+	case <-r.exited:
+	case <-time.After(3 * time.Second):
+	}
+	if !okNew {
+		// the listener's report waits for the held start-up report: sizes arrive in query order
+		if len(got) == 0 || got[len(got)-1] != "100 30" {
+			out.fail(finding{Property: "C18", Class: "new", What: "after a resize during start-up the true size was never reported", Input: desc, Expected: "last size 100 30", Observed: strings.Join(got, ", ")})
+		}
+		return
+	}
+	if len(got) == 0 || got[len(got)-1] != "100 30" {
+		out.fail(finding{Property: "C18", Class: "new", What: "a stale window size was delivered after a newer one: the size Update saw last is not the terminal's true size (concurrent size queries are not ordered)", Input: desc,
+			Expected: "last size 100 30", Observed: strings.Join(got, ", ")})
+	}
+}
+
 func scenPty(out *scenOut, rr *rng, thorough bool) {
 	out.Rule = "a child process with a real program on a pty: SIGINT/SIGTERM x {default, WithoutSignalHandler, WithoutSignals} x phase {idle, inside Update, terminal released for an Exec}; random pty resize sequences (TIOCSWINSZ raises SIGWINCH) and WindowSize commands; exit status, Run's error, terminal modes on the master side, termios before/after. distinct = scenario tuples"
 	if _, err := openPtyProbe(); err != nil {
@@ -370,6 +427,13 @@ func scenPty(out *scenOut, rr *rng, thorough bool) {
 			}(input, cause)
 		}
 	}
+	wg.Add(1)
+	sem <- struct{}{}
+	go func() {
+		defer wg.Done()
+		defer func() { <-sem }()
+		ptyStaleSize(out)
+	}()
 	reps := 3
 	if thorough {
 		reps = 12
